@@ -772,7 +772,46 @@ def build(ir):
     # signature_defs listed in another order than their subgraphs
     g.m.signatureDefs.reverse()
   out.model = g.bytes()
+  if ir.get('external'):
+    out.model = to_external(out.model)
   return out
+
+
+def to_external(model_bytes):
+  """Re-serialize a model in the large-model layout: constant data appended
+  after the flatbuffer, buffers carry (offset, size), 16-byte aligned.  Written
+  from the TFLite schema comments, independent of the library's writer."""
+  m = s.ModelT.InitFromPackedBuf(bytes(model_bytes), 0)
+  datas = []
+  for b in m.buffers:
+    if b.data is not None and len(b.data):
+      datas.append(bytes(np.asarray(b.data, dtype=np.uint8).tobytes()))
+      b.data = None
+      b.offset, b.size = 1, 1      # placeholders keep the fields present
+    else:
+      datas.append(None)
+
+  def pack():
+    fb = flatbuffers.Builder(1024)
+    fb.Finish(m.Pack(fb), file_identifier=b'TFL3')
+    return bytes(fb.Output())
+  head = pack()
+  off = (len(head) + 15) // 16 * 16
+  for b, d in zip(m.buffers, datas):
+    if d is None:
+      continue
+    b.offset, b.size = off, len(d)
+    off = (off + len(d) + 15) // 16 * 16
+  head2 = pack()
+  assert len(head2) == len(head)
+  out = bytearray(head2)
+  out += b'\0' * (-len(out) % 16)
+  for d in datas:
+    if d is None:
+      continue
+    out += d
+    out += b'\0' * (-len(out) % 16)
+  return bytes(out)
 
 
 def single(ops, exports=(), **kw):
